@@ -1,28 +1,24 @@
 (** * Model of [distributions/multivariatenormal.rs]: [pdf] and [ln_pdf] of the multivariate normal, from the
-    cached inverse covariance and determinant.  [Matrix::inv] / [Matrix::det] (LU: properties C01/C11) are NOT
-    modelled here: the cached values [cinv], [cdet] are inputs (the correspondence recomputes them with the same
-    public functions).  The products go through the [Dot] trait (Model/MatMul.v, property C05) and the unrolled
+    cached inverse covariance and determinant.  The constructor [MVN::new], which computes the cached values with
+    [Matrix::cholesky] / [Matrix::inv] / [Matrix::det], is modelled in [Model/MVNNew.v] by composition with the models
+    of C01 / C11; here [cinv], [cdet] are inputs (the correspondence runs these functions both on values recomputed
+    with the crate's public functions and, end to end, on the values the composed constructor computes).  The products go through the [Dot] trait (Model/MatMul.v, property C05) and the unrolled
     [dot] (Model/Reduce.v).  No proofs here. *)
 From Coq Require Import List ZArith QArith Bool Arith.
 From Compute Require Import Base.Ops Base.ListMat Model.Reduce Model.MatMul.
+From Compute Require Model.Subst.
 Import ListNotations.
 
 Section MVN.
   Context {T : Type} (O : Ops T).
   Local Notation z := (zero O).
 
-  (** [f64::EPSILON] = 2^-52 *)
-  Definition f64_epsilon : T := ofQ O (1 # 4503599627370496)%Q.
-
-  (** [Matrix::is_symmetric]: square, and [|a[i*ncols+j] - a[j*nrows+i]| <= EPSILON] for [j >= i] *)
-  Definition is_symmetric (m : matrix (T := T)) : bool :=
-    (nr m =? nc m) &&
-    forallb (fun i => forallb (fun j =>
-        negb (ltb O f64_epsilon (abs O (sub O (nth (i * nc m + j) (dat m) z) (nth (j * nr m + i) (dat m) z)))))
-      (seq i (nc m - i))) (seq 0 (nr m)).
-  (** [Matrix::is_positive_definite]: symmetric with a positive diagonal (sic: see D1, property C01) *)
-  Definition is_positive_definite (m : matrix (T := T)) : bool :=
-    is_symmetric m && forallb (fun i => negb (leb O (nth (i * nc m + i) (dat m) z) z)) (seq 0 (nc m)).
+  (** [Matrix::is_symmetric] (square, and [|x - y| <= EPSILON * max(|x|, |y|)] for every mirrored pair: the tolerance is
+      RELATIVE since the repair made for property C01) and [Matrix::is_positive_definite] (symmetric with a positive
+      diagonal; sic: see D1, property C01): the [Matrix] predicates of [Model/Subst.v], one definition shared with
+      C01 / C11 (tied bitwise there and, through the near-symmetric covariances, here). *)
+  Definition is_symmetric (m : matrix (T := T)) : bool := Model.Subst.matrix_is_symmetric O m.
+  Definition is_positive_definite (m : matrix (T := T)) : bool := Model.Subst.matrix_is_positive_definite O m.
 
   (** [x.iter().enumerate().map(|(i, v)| v - self.mean[i])]: indexing past the mean panics *)
   Fixpoint centre (x mean : list T) : option (list T) :=
